@@ -24,6 +24,15 @@ def core_fn(db, name):
     return f
 
 
+def kernel_fn(db):
+    """the rounding kernel: the function of fpdec-core taking (i128, u128, u128, Option<RoundingMode>)"""
+    c = [f for f in db.fns.values() if f['crate'] == 'fpdec_core' and f['arg_count'] == 4
+         and f['locals'][1:4] == ['i128', 'u128', 'u128'] and 'RoundingMode>' in f['locals'][4]]
+    if len(c) != 1:
+        raise SystemExit('fpsa: rounding kernel (i128, u128, u128, Option<RoundingMode>) not found uniquely: %s (fail closed)' % [f['id'] for f in c])
+    return c[0]
+
+
 def mode_arg(db, mode, via_none):
     idx = [i for i, n in mode_names(db).items() if n == mode][0]
     if via_none:
@@ -33,7 +42,7 @@ def mode_arg(db, mode, via_none):
 
 def job_kernel(db, job):
     _, mode, via_none = job
-    fn = core_fn(db, CORE + 'round_quot')
+    fn = kernel_fn(db)
     marg, midx = mode_arg(db, mode, via_none)
     I = Interp(db, Opts(summaries={rounding.default_mode_fn(db)['id']: rounding.summ_default_mode}, mode=midx))
     st = I.new_state()
@@ -48,12 +57,25 @@ def job_kernel(db, job):
     classes = set()
     for o in outs:
         s = o.state
-        if o.kind == 'ret' and isinstance(o.value, Int):
-            ok, msg = check_rounded(s, o.value.p, N, div.p, mode)
+        v = o.value
+        none_path = False
+        if o.kind == 'ret' and opt_parts(v) is not None:
+            # kernel returning Option<i128>: None only as "quot + 1 does not fit"
+            op_ = opt_parts(v)
+            if op_[0] == 'none':
+                ov = notes_of(o, 'overflows')
+                none_path = len(ov) == 1 and poly_eq(s, dict(ov[0][1]), padd(quot.p, pconst(1)))
+                if not none_path:
+                    bad.append('None that is not the overflow of quot + 1')
+                    continue
+            else:
+                v = op_[1]
+        if o.kind == 'ret' and isinstance(v, Int) and not none_path:
+            ok, msg = check_rounded(s, v.p, N, div.p, mode)
             if not ok:
                 bad.append('%s [facts: rem sign %s, 2rem-div sign %s, quot sign %s]' % (msg, sorted(s.sign(rem.p)), sorted(s.sign(padd(pscale(rem.p, 2), div.p, -1))), sorted(s.sign(quot.p))))
             classes.add(msg)
-        elif o.kind == 'panic' and o.value == 'overflow' and (o.info or {}).get('term') == pfreeze(s.norm(padd(quot.p, pconst(1)))):
+        elif none_path or (o.kind == 'panic' and o.value == 'overflow' and (o.info or {}).get('term') == pfreeze(s.norm(padd(quot.p, pconst(1))))):
             # quot + 1 does not fit: permitted only if the oracle increments and quot is i128::MAX
             try:
                 inc = round_inc(mode, s, quot.p, rem.p, div.p)
